@@ -80,4 +80,22 @@ theorem distribution_conserves {α : Type} [CommRing α] [LinearOrder α] [IsStr
       = (startDist A s).sumVotes + (s.ballots.map (fun b => A.ofInt b.mult)).sum :=
   distributeVotes_sum A hA warren s hwf hq
 
+/-- **every snapshot of a Meek / Warren count over strict ballots shows votes + residual = ballots, exactly** — begin,
+    every round, every iterate, every election, tie and exclusion, up to the last candidate decided — for every input that
+    `Election.__init__` hands over (`MInit`), every lawful arithmetic, whatever the keep factors, precision and omega are.
+    (`SnapM` is the conservation clause of the predicate `okC08cons` evaluated on implementation records; the final `end`
+    snapshot, whose residual is *defined* as ballots − elected votes, and equal-rank ballots are covered by the
+    correspondence and the oracle only: `_partial` in that sense.) -/
+theorem meek_record_identity_partial {α : Type} [CommRing α] [LinearOrder α] [IsStrictOrderedRing α] (A : Arith α)
+    (hA : LawfulArith A) (hz : A.isZero A.zero = true) (o : MeekOpts) (omega : α) (iterFuel fuel : Nat)
+    (s0 t : St α) (h0 : MInit A s0)
+    (hl : loopN (fun s => !meekCountComplete s) (meekBody A o omega iterFuel) fuel (meekInit A s0) = some t) :
+    ∀ a ∈ (t.hopeful.foldl (meekRemainingStep A o) t).acts, ∀ sn, a.snap = some sn →
+      ((sn.cs.filter (fun e => e.2.1 != "W")).map (fun e => e.2.2.1)).sum + sn.x1
+        = A.ofInt (t.hopeful.foldl (meekRemainingStep A o) t).nballots :=
+  meek_identity A hA hz o omega iterFuel fuel s0 t h0 hl
+
+example : (fixedArith 9).isZero (fixedArith 9).zero = true := rfl
+example : (guardedArith 9 9).isZero (guardedArith 9 9).zero = true := rfl
+
 end Droop.C08
